@@ -954,3 +954,213 @@ Proof.
     f_equal; destruct acc as [[old|]|]; reflexivity. }
   rewrite FL; [reflexivity|]. intros m I. exact (proj1 (in_sort_by snd lms m) I).
 Qed.
+
+(* ------------------------------------------------------------------ merging the parts of a value rebuilds it *)
+Lemma aset_aremove_id : forall (l : list (key * tree)) k c, sorted (map fst l) = true -> lookup k l = Some c ->
+  aset k c (aremove k l) = l.
+Proof.
+  intros l k c S L. apply assoc_ext; [apply sorted_aset, sorted_aremove, S|exact S|].
+  intros j. rewrite lookup_aset, lookup_aremove. destruct (j =? k) eqn:E; [|reflexivity].
+  assert (j = k) by lia. now subst.
+Qed.
+
+Lemma aset_id : forall (l : list (key * tree)) k c, sorted (map fst l) = true -> lookup k l = Some c -> aset k c l = l.
+Proof.
+  intros l k c S L. apply assoc_ext; [apply sorted_aset, S|exact S|].
+  intros j. rewrite lookup_aset. destruct (j =? k) eqn:E; [|reflexivity]. assert (j = k) by lia. now subst.
+Qed.
+
+Lemma merge_single : forall k a l', merge (Obj [(k, a)]) (Obj l') =
+  match lookup k l' with
+  | Some ov => match merge a ov with Some m => Some (Obj (aset k m l')) | None => None end
+  | None => Some (Obj (aset k a l'))
+  end.
+Proof.
+  intros k a l'. cbn [merge fold_left fst snd]. destruct (lookup k l') as [ov|]; [|reflexivity].
+  destruct (merge a ov); reflexivity.
+Qed.
+
+Lemma prune_unfold : forall k q l, prune (k :: q) (Some (Obj l)) =
+  match lookup k l with
+  | None => None
+  | Some c => match prune q (Some c) with
+              | None => None
+              | Some nv => let l' := match nv with None => aremove k l | Some c' => aset k c' l end in
+                           Some (match l' with [] => None | _ => Some (Obj l') end)
+              end
+  end.
+Proof. reflexivity. Qed.
+
+(* A: pruning a suffix and merging its part back are inverse *)
+Lemma prune_merge : forall sf v x r, wf_tree v = true -> value_at sf v = Some x -> prune sf (Some v) = Some r ->
+  match r with Some rest => merge (nest sf x) rest = Some v | None => nest sf x = v end.
+Proof.
+  induction sf as [|k q IH]; intros v x r W V P.
+  - cbn in V, P. injection V as <-. injection P as <-. reflexivity.
+  - destruct v as [| z | l]; try discriminate. cbn [value_at] in V. rewrite prune_unfold in P.
+    destruct (lookup k l) as [c|] eqn:EL; [|discriminate].
+    pose proof W as W'. apply wf_obj in W'. destruct W' as [S _].
+    assert (Wc : wf_tree c = true) by (eapply wf_lookup; eauto).
+    destruct (prune q (Some c)) as [nv|] eqn:PQ; [|discriminate]. specialize (IH c x nv Wc V PQ).
+    cbn [nest]. destruct nv as [c'|].
+    + revert P. cbv beta iota zeta. destruct (aset k c' l) as [|e l1] eqn:EA; intros P.
+      { pose proof (lookup_aset_eq l k c') as X. rewrite EA in X. discriminate. }
+      injection P as <-. rewrite <- EA. rewrite merge_single, lookup_aset_eq, IH.
+      now rewrite aset_aset_same, aset_id.
+    + subst c. revert P. cbv beta iota zeta. destruct (aremove k l) as [|e l1] eqn:ER; intros P.
+      * injection P as <-. f_equal. rewrite <- (aset_aremove_id l k (nest q x) S EL), ER. reflexivity.
+      * injection P as <-. rewrite <- ER. rewrite merge_single, lookup_aremove, N.eqb_refl.
+        now rewrite aset_aremove_id.
+Qed.
+
+Lemma diverge_nil_r : forall q, diverge q [] = false.
+Proof. intros q. unfold diverge. cbn. now rewrite andb_false_r. Qed.
+
+(* B: pruning one suffix leaves what lies under a diverging suffix as it was *)
+Lemma prune_other : forall s s' v r x', diverge s s' = true -> prune s (Some v) = Some r ->
+  value_at s' v = Some x' -> exists rest, r = Some rest /\ value_at s' rest = Some x'.
+Proof.
+  induction s as [|k q IH]; intros s' v r x' D P V; [discriminate|].
+  destruct s' as [|k' q']; [now rewrite diverge_nil_r in D|]. rewrite diverge_cons in D.
+  destruct v as [| z | l]; try discriminate. cbn [value_at] in V. rewrite prune_unfold in P.
+  destruct (lookup k' l) as [c2|] eqn:EL2; [|discriminate].
+  destruct (lookup k l) as [c|] eqn:EL; [|discriminate].
+  destruct (prune q (Some c)) as [nv|] eqn:PQ; [|discriminate]. cbv zeta in P.
+  destruct (k =? k') eqn:E.
+  - assert (k = k') by lia; subst k'. rewrite EL in EL2. injection EL2 as <-.
+    destruct (IH q' c nv x' D PQ V) as (rest' & -> & V').
+    revert P. cbv beta iota zeta. destruct (aset k rest' l) as [|e l1] eqn:EA; intros P.
+    { pose proof (lookup_aset_eq l k rest') as X. rewrite EA in X. discriminate. }
+    injection P as <-. eexists. split; [reflexivity|]. rewrite <- EA. cbn [value_at]. now rewrite lookup_aset_eq.
+  - set (l' := match nv with None => aremove k l | Some c' => aset k c' l end) in *.
+    assert (LK : lookup k' l' = Some c2).
+    { unfold l'. destruct nv; [rewrite lookup_aset|rewrite lookup_aremove]; rewrite (N.eqb_sym k' k), E; exact EL2. }
+    destruct l' as [|e l1] eqn:EL'; [discriminate|]. injection P as <-.
+    eexists. split; [reflexivity|]. cbn [value_at]. now rewrite LK.
+Qed.
+
+Lemma prune_wf : forall s v rest, wf_tree v = true -> prune s (Some v) = Some (Some rest) -> wf_tree rest = true.
+Proof.
+  induction s as [|k q IH]; intros v rest W P; [discriminate|].
+  destruct v as [| z | l]; try discriminate. rewrite prune_unfold in P.
+  destruct (lookup k l) as [c|] eqn:EL; [|discriminate].
+  destruct (prune q (Some c)) as [nv|] eqn:PQ; [|discriminate]. destruct nv as [c'|]; revert P; cbv beta iota zeta.
+  - destruct (aset k c' l) as [|e l1] eqn:EA; intros P; [discriminate|]. injection P as <-. rewrite <- EA.
+    apply wf_aset; [exact W|]. eapply IH; [|exact PQ]. eapply wf_lookup; eauto.
+  - destruct (aremove k l) as [|e l1] eqn:ER; intros P; [discriminate|]. injection P as <-. rewrite <- ER. now apply wf_aremove.
+Qed.
+
+Fixpoint pw_div (L : list path) : Prop :=
+  match L with [] => True | s :: r => (forall s', In s' r -> diverge s s' = true) /\ pw_div r end.
+
+Definition xv (cur : tree) (s : path) : tree := match value_at s cur with Some x => x | None => Null end.
+Definition prune_step (acc : option (option tree)) (sf : path) : option (option tree) :=
+  match acc with Some cur => prune sf cur | None => None end.
+
+Lemma prune_fold_none : forall L, fold_left prune_step L None = None.
+Proof. induction L; cbn; auto. Qed.
+
+(* D: if pruning pairwise diverging suffixes one after the other uses the value up, then merging their parts - last
+   pruned first - gives the value back *)
+Lemma prune_all_merge : forall L cur, wf_tree cur = true -> pw_div L ->
+  (forall s, In s L -> value_at s cur <> None) ->
+  fold_left prune_step L (Some (Some cur)) = Some None ->
+  merge_all (map (fun s => nest s (xv cur s)) (rev L)) = Some (Some cur).
+Proof.
+  induction L as [|s L' IH]; intros cur W PW VA F; [discriminate|].
+  cbn [fold_left prune_step] in F. destruct (prune s (Some cur)) as [r|] eqn:P; [|now rewrite prune_fold_none in F].
+  destruct (value_at s cur) as [x|] eqn:Vs; [|exfalso; apply (VA s (or_introl eq_refl)); exact Vs].
+  pose proof (prune_merge s cur x r W Vs P) as A. destruct PW as [PWs PW'].
+  destruct L' as [|s2 L2].
+  - cbn in F. injection F as ->. cbn. unfold xv. rewrite Vs. now rewrite A.
+  - remember (s2 :: L2) as L1 eqn:EL1. assert (I2 : In s2 L1) by (rewrite EL1; now left).
+    assert (B : forall s', In s' L1 -> exists rest, r = Some rest /\ value_at s' rest = value_at s' cur).
+    { intros s' I. destruct (value_at s' cur) as [x'|] eqn:V'; [|exfalso; apply (VA s' (or_intror I)); exact V'].
+      destruct (prune_other s s' cur r x' (PWs s' I) P V') as (rest & -> & V2). eauto. }
+    destruct (B s2 I2) as (rest & -> & _).
+    assert (B' : forall s', In s' L1 -> value_at s' rest = value_at s' cur).
+    { intros s' I. destruct (B s' I) as (rest' & E & V2). now injection E as <-. }
+    assert (IH' : merge_all (map (fun s0 => nest s0 (xv rest s0)) (rev L1)) = Some (Some rest)).
+    { apply IH; [eapply prune_wf; eauto|exact PW'| |exact F].
+      intros s' I. rewrite (B' s' I). apply VA. now right. }
+    cbn [rev]. rewrite map_app. unfold merge_all in *. rewrite fold_left_app.
+    rewrite (map_ext_in (fun s0 => nest s0 (xv cur s0)) (fun s0 => nest s0 (xv rest s0)) (rev L1)).
+    + rewrite IH'. cbn. unfold xv at 1. rewrite Vs, A. reflexivity.
+    + intros s' I. apply in_rev in I. unfold xv. now rewrite (B' s' I).
+Qed.
+
+Lemma path_eqb_eq : forall a b, path_eqb a b = true -> a = b.
+Proof.
+  induction a as [|x a IH]; intros [|y b] H; cbn in H; try discriminate; [reflexivity|].
+  apply andb_prop in H. destruct H as [E H]. assert (x = y) by lia. subst. f_equal. now apply IH.
+Qed.
+
+Lemma dedup_nodup : forall l, NoDup l -> dedup_paths l = l.
+Proof.
+  induction l as [|x r IH]; intros N; [reflexivity|]. inversion N as [|? ? NI Nr]; subst. cbn.
+  destruct (existsb (path_eqb x) r) eqn:E.
+  - apply existsb_exists in E. destruct E as (y & I & E). apply path_eqb_eq in E. subst. contradiction.
+  - now rewrite IH.
+Qed.
+
+Lemma pw_from : forall L, NoDup L -> (forall s s', In s L -> In s' L -> s = s' \/ diverge s s' = true) -> pw_div L.
+Proof.
+  induction L as [|s r IH]; intros N H; [exact I|]. inversion N as [|? ? NI Nr]; subst. split.
+  - intros s' I. destruct (H s s' (or_introl eq_refl) (or_intror I)) as [->|D]; [contradiction|exact D].
+  - apply IH; [exact Nr|]. intros a b Ia Ib. apply H; now right.
+Qed.
+
+Lemma set_writes_facts : forall rules req v ws lms, set_writes rules req v = (ROk, ws) ->
+  literal_matches (matches writeable rules req) = Some lms ->
+  unused_check v (rev (dedup_paths (map snd (sort_by snd lms)))) = true /\
+  (forall m, In m lms -> value_at (snd m) v <> None).
+Proof.
+  intros rules req v ws lms H EL. unfold set_writes in H.
+  destruct (matches writeable rules req) as [|m0 ms0] eqn:EM; [discriminate|]. rewrite EL in H.
+  destruct (overlapping (map snd lms)); [discriminate|].
+  match type of H with (if ?c then _ else _) = _ => destruct c eqn:C1; [discriminate|] end.
+  match type of H with (if ?c then _ else _) = _ => destruct c eqn:C2; [discriminate|] end.
+  split; [now apply negb_false_iff in C2|].
+  intros m I V. apply (in_sort_by fst) in I.
+  assert (X : existsb (fun pv : path * option tree => match snd pv with None => true | Some _ => false end)
+                (map (fun m => (fst m, value_at (snd m) v)) (sort_by fst lms)) = true).
+  { apply existsb_exists. exists (fst m, value_at (snd m) v). split; [|cbn; now rewrite V].
+    exact (in_map (fun m0 : path * path => (fst m0, value_at (snd m0) v)) _ m I). }
+  congruence.
+Qed.
+
+(* Get of the same request after an accepted Set of v through several literal rules returns v *)
+Theorem view_read_after_write_same_request : forall rules req v ws lms t b,
+  set_writes rules req v = (ROk, ws) -> Forall is_set ws ->
+  matches readable rules req = matches writeable rules req ->
+  literal_matches (matches writeable rules req) = Some lms ->
+  (forall ws1 d ws2, ws = ws1 ++ d :: ws2 -> forall d', In d' ws2 -> is_prefix (fst d) (fst d') = false) ->
+  apply_deltas (tx_pristine t) (tx_deltas t) = Some b ->
+  wf_tree v = true ->
+  NoDup (map snd (sort_by snd lms)) ->
+  (forall s s', In s (map snd lms) -> In s' (map snd lms) -> s = s' \/ diverge s s' = true) ->
+  (forall m, In m lms -> strip (xval v m) = xval v m) ->
+  view_get rules (tx_get (add_deltas t ws)) req = VOk v.
+Proof.
+  intros rules req v ws lms t b H F MRW EL NP AD W ND PD ST.
+  rewrite (view_read_after_write_merge rules req v ws lms t b H F MRW EL NP AD).
+  destruct (set_writes_facts _ _ _ _ _ H EL) as [U VA].
+  set (S := map snd (sort_by snd lms)) in *.
+  assert (INS : forall s, In s S -> exists m, In m lms /\ snd m = s).
+  { intros s I. apply in_map_iff in I. destruct I as (m & E & I). apply (proj1 (in_sort_by snd lms m)) in I. exists m. split; assumption. }
+  rewrite (map_ext_in (fun m => nest (snd m) (strip (xval v m))) (fun m => nest (snd m) (xval v m))).
+  2:{ intros m I. apply (proj1 (in_sort_by snd lms m)) in I. rewrite (ST m I). reflexivity. }
+  rewrite dedup_nodup in U by exact ND. unfold unused_check in U.
+  assert (FL : fold_left prune_step (rev S) (Some (Some v)) = Some None).
+  { change (fold_left prune_step (rev S) (Some (Some v))) with
+      (fold_left (fun acc sf => match acc with Some cur => prune sf cur | None => None end) (rev S) (Some (Some v))).
+    destruct (fold_left _ (rev S) (Some (Some v))) as [[?|]|]; try discriminate. reflexivity. }
+  assert (M : merge_all (map (fun s => nest s (xv v s)) (rev (rev S))) = Some (Some v)).
+  { apply prune_all_merge; [exact W| | |exact FL].
+    - apply pw_from; [now apply NoDup_rev|]. intros s s' I I'. apply in_rev in I. apply in_rev in I'.
+      destruct (INS s I) as (m & Im & <-). destruct (INS s' I') as (m' & Im' & <-).
+      apply PD; now apply in_map.
+    - intros s I. apply in_rev in I. destruct (INS s I) as (m & Im & <-). now apply VA. }
+  rewrite rev_involutive in M. unfold S in M. rewrite map_map in M.
+  unfold xv in M. unfold xval. rewrite M. reflexivity.
+Qed.
